@@ -233,11 +233,13 @@ def n_env_auth(secure, upper):
     import os as real_os
     import urllib.parse as UP
     user = ENV_CREDS[sx.choice("user", len(ENV_CREDS))]
-    pw = ENV_CREDS[sx.choice("pw", len(ENV_CREDS))]
+    pwi = sx.choice("pw", len(ENV_CREDS) + 1)
+    pw = ENV_CREDS[pwi] if pwi < len(ENV_CREDS) else None  # None: a user name only (http://user@proxy:3128), as the option form allows
     name = "https_proxy" if secure else "http_proxy"
     if upper:
         name = name.upper()
-    env = {name: "http://%s:%s@envproxy.example:3128%s" % (UP.quote(user, safe=""), UP.quote(pw, safe=""), ("", "/")[sx.choice("slash", 2)])}
+    cred = UP.quote(user, safe="") + ("" if pw is None else ":" + UP.quote(pw, safe=""))
+    env = {name: "http://%s@envproxy.example:3128%s" % (cred, ("", "/")[sx.choice("slash", 2)])}
     with _Patch(os=FakeEnv(real_os, env)) as U:
         try:
             got = U.get_proxy_info("target.example", secure)
@@ -417,7 +419,7 @@ def obligations(tier):
                    must_cover=["proxied", "direct"], budget_s=1800, kernel=["_url.get_proxy_info", "_is_no_proxy_host"]),
         Obligation("N-env-auth", n_env_auth, [dict(secure=s, upper=u) for s in (False, True) for u in (False, True)],
                    bounds="proxy URL in http_proxy / https_proxy (lower and upper case) with percent-encoded user and password from a catalogue of 9 "
-                          "values containing @ : / ? # % and space (all 81 pairs), with and without a trailing slash", must_cover=["env-auth"],
+                          "values containing @ : / ? # % and space (all 81 pairs, plus each user name without a password), with and without a trailing slash", must_cover=["env-auth"],
                    kernel=["_url.get_proxy_info"]),
         Obligation("N-redirect", n_redirect, [dict(first_exempt=a, second_exempt=b, src=c) for a in (False, True) for b in (False, True) for c in ("option", "env")],
                    bounds="proxy given by option or by http_proxy; a 302 from first.example to second.example; each of the two hosts exempt or not "
